@@ -4,6 +4,7 @@ import (
 	"context"
 	"fmt"
 	"io"
+	stdlog "log"
 	"log/slog"
 	"os"
 	"sort"
@@ -25,6 +26,9 @@ import (
 
 func init() {
 	blog.Set(slog.New(slog.NewTextHandler(io.Discard, nil)))
+	// slog.SetDefault redirected the std logger into the discarding handler; fatal messages must stay visible.
+	stdlog.SetOutput(os.Stderr)
+	stdlog.SetFlags(0)
 }
 
 // Violation is a property violation found by a monitor.
@@ -88,6 +92,9 @@ type Exec struct {
 	postTicks  int
 	tickDead   bool
 	Diverged   string
+	Leaked     bool
+	// EventsAtEnd is the number of events when the driver loop ended (later ones belong to the teardown).
+	EventsAtEnd int
 	EndDigest  string
 	Violations []*Violation
 	// Scratch space for monitors.
@@ -560,6 +567,9 @@ func (x *Exec) run(choose Chooser, mon Monitor, opt ExecOpts) {
 		x.tickDead = false
 		w.release(g)
 	}
+	w.mu.Lock()
+	x.EventsAtEnd = len(w.Events)
+	w.mu.Unlock()
 	if mon != nil && x.Outcome != "diverged" && x.Outcome != "pruned" {
 		mon.AtEnd(x)
 	}
@@ -571,8 +581,13 @@ func (x *Exec) run(choose Chooser, mon Monitor, opt ExecOpts) {
 			break
 		}
 	}
+	// Engine goroutines are pool jobs: if the pool drains, nothing can touch the vault any more and it is closed;
+	// otherwise (hung or still ticking engine) everything is leaked together with the dead bubble.
 	cctx, cancel := context.WithTimeout(ctx, 5*time.Second)
-	inner.Close(cctx)
-	pool.Close(cctx)
+	if err := pool.Close(cctx); err == nil {
+		inner.Close(cctx)
+	} else {
+		x.Leaked = true
+	}
 	cancel()
 }
